@@ -346,7 +346,6 @@ func (s *ReverseInnerSearcher) Find(haystack []byte) *Match {
 	// Therefore, we can return immediately on first confirmed match!
 
 	searchStart := 0
-	minPreStart := 0   // Track minimum position for forward scan quadratic detection
 	minMatchStart := 0 // Anti-quadratic guard for reverse scan
 
 	// Acquire caches once for the entire candidate loop
@@ -363,19 +362,6 @@ func (s *ReverseInnerSearcher) Find(haystack []byte) *Match {
 			break
 		}
 
-		// QUADRATIC BEHAVIOR DETECTION (from rust-regex):
-		// If the new candidate starts before the end of last forward scan,
-		// we have overlapping candidates which causes O(n^2) behavior.
-		// Fall back to PikeVM which is O(n) in this case.
-		if pos < minPreStart {
-			// Quadratic behavior detected - use PikeVM fallback
-			start, end, found := s.pikevm.Search(haystack)
-			if found {
-				return NewMatch(start, end, haystack)
-			}
-			return nil
-		}
-
 		// Step 1: Reverse search on PREFIX portion with anti-quadratic guard
 		// Check if we can reach this inner literal from an earlier position.
 		// Use minMatchStart to avoid re-scanning regions already proven to have no match.
@@ -389,7 +375,12 @@ func (s *ReverseInnerSearcher) Find(haystack []byte) *Match {
 			return nil
 		}
 		if matchStart < 0 {
-			// Prefix doesn't match - try next candidate
+			// Prefix doesn't match - try next candidate.
+			// Anti-quadratic guard (same as IsMatch): the next reverse scan must
+			// die before it re-enters the region this one has covered.
+			if pos+s.innerLen > minMatchStart {
+				minMatchStart = pos + s.innerLen
+			}
 			searchStart = pos + 1
 			if searchStart >= len(haystack) {
 				break
@@ -402,13 +393,11 @@ func (s *ReverseInnerSearcher) Find(haystack []byte) *Match {
 		suffixHaystack := haystack[pos:]
 		matchEndRel := s.forwardDFA.Find(fwdCache, suffixHaystack)
 		if matchEndRel < 0 {
-			// Suffix doesn't match - update minPreStart and try next candidate
-			minPreStart = pos + s.innerLen
-			searchStart = pos + 1
-			if searchStart >= len(haystack) {
-				break
-			}
-			continue
+			// The forward search is unanchored and ran to the end of the haystack:
+			// the suffix portion matches nowhere from pos on, so no later candidate
+			// can be confirmed either. Scanning the tail again for each of them
+			// would be O(n^2); let the PikeVM fallback below decide.
+			break
 		}
 
 		// EARLY RETURN: First confirmed match is leftmost by construction!
@@ -562,7 +551,12 @@ func (s *ReverseInnerSearcher) findIndicesAtImpl(haystack []byte, at int, fwdCac
 			return s.pikevm.SearchAt(haystack, at)
 		}
 		if matchStart < 0 || matchStart < at {
-			// Prefix doesn't match or match starts before 'at' - try next candidate
+			// Prefix doesn't match or match starts before 'at' - try next candidate.
+			// Anti-quadratic guard: the next reverse scan must die before it
+			// re-enters the region this one has covered.
+			if pos+s.innerLen > minMatchStart {
+				minMatchStart = pos + s.innerLen
+			}
 			searchStart = pos + 1
 			if searchStart >= len(haystack) {
 				break
@@ -574,12 +568,10 @@ func (s *ReverseInnerSearcher) findIndicesAtImpl(haystack []byte, at int, fwdCac
 		suffixHaystack := haystack[pos:]
 		matchEndRel := s.forwardDFA.Find(fwdCache, suffixHaystack)
 		if matchEndRel < 0 {
-			// Suffix doesn't match - try next candidate
-			searchStart = pos + 1
-			if searchStart >= len(haystack) {
-				break
-			}
-			continue
+			// Unanchored forward search failed up to the end of the haystack: no
+			// later candidate can be confirmed. Do not rescan the tail for each
+			// of them (O(n^2)); the PikeVM fallback below decides.
+			break
 		}
 
 		// Found valid match
